@@ -47,6 +47,23 @@ PRE_ACQUISITION = {
 }
 
 
+def closes_all_param(ctx, u: Unit, pname: str) -> bool:
+    """A cleanup helper: a coroutine whose body is a loop over ``pname`` that closes every
+    element (same acceptance test as the K2 loop)."""
+    if u.kind != "coroutine":
+        return False
+    cfg = cfg_of(u)
+    src = f"{u.short}:{pname}"
+    for n in cfg.nodes:
+        if n.kind == "siter" and not n.tag and isinstance(n.info.get("iter"), ast.Name) and n.info["iter"].id == pname:
+            if _loop_closes_all(ctx, u, cfg, n, src, elements_are_iterators=True):
+                # nothing but the loop: no other await / yield outside of it
+                others = [m for m in cfg.nodes if m.kind in ("await", "yield", "pull") and not m.tag
+                          and not m.in_region("loop", n.ast)]
+                return not others
+    return False
+
+
 def iterable_params(ctx) -> List[Tuple[Unit, str, str]]:
     out = []
     for u in real_units(ctx):
@@ -57,6 +74,8 @@ def iterable_params(ctx) -> List[Tuple[Unit, str, str]]:
         for p in u.params():
             roles = roles_of_annotation(p.annotation)
             if "ITERABLE" in roles:
+                if closes_all_param(ctx, u, p.arg):
+                    continue  # a private cleanup helper: it *is* the close of what it receives
                 out.append((u, p.arg, f"{u.short}:{p.arg}"))
     return out
 
@@ -68,7 +87,7 @@ def _is_aclose_await(ctx, unit: Unit, n: Node, src: Optional[str]) -> bool:
         return False
     operand = n.info.get("value")
     v = ctx.vals.expr(unit, operand, n)
-    if src is not None and not any(a[0] == "userawait" and a[1] == src for a in v):
+    if src is not None and not any(a[0] == "userawait" and a[1] in (src, src + "[]") for a in v):
         return False
     return _names_aclose(ctx, unit, operand, n)
 
@@ -90,14 +109,16 @@ def _names_aclose(ctx, unit: Unit, e: Optional[ast.AST], n: Node, depth: int = 0
     return False
 
 
-def _loop_closes_all(ctx, unit: Unit, cfg: CFG, siter: Node, src: str) -> bool:
+def _loop_closes_all(ctx, unit: Unit, cfg: CFG, siter: Node, src: str, elements_are_iterators: bool = False) -> bool:
     """K2: does this ``for`` loop close every element (iterator of src)?"""
     loop = siter.ast
     if not isinstance(loop, ast.For):
         return False
     itv = ctx.vals.expr(unit, siter.info["iter"], siter)
     elem = ctx.vals.element_of(itv)
-    if not any(a[0] in ("iter", "user", "tuple") and mentions(frozenset([a]), src) for a in elem):
+    if elements_are_iterators:
+        src = src + "[]" if any(a[0] == "item" and a[1] == src + "[]" for a in elem) else src
+    if not any(a[0] in ("iter", "user", "tuple", "item") and mentions(frozenset([a]), src) for a in elem):
         return False
     # the snext node of this copy of the loop
     snext = [s for (lab, s) in siter.succ if lab == "n" and s.kind == "snext"]
@@ -217,7 +238,37 @@ def close_nodes(ctx, unit: Unit, cfg: CFG, src: str, findings: List[Tuple[Node, 
                     out.add(n)
             elif _is_transfer_await(ctx, unit, n, src):
                 out.add(n)
+            elif _is_cleanup_helper_await(ctx, unit, cfg, n, src, findings):
+                out.add(n)
     return out
+
+
+def _is_cleanup_helper_await(ctx, unit: Unit, cfg: CFG, n: Node, src: str, findings) -> bool:
+    """``await _close_all(container)``: the K2 loop extracted into a private helper."""
+    call = n.info.get("value")
+    if not isinstance(call, ast.Call) or len(call.args) != 1:
+        return False
+    fv = ctx.vals.expr(unit, call.func, n)
+    for f in fv:
+        if f[0] != "libfn":
+            continue
+        target = ctx.pkg.lib_unit(f[1])
+        if target is None or target.kind != "coroutine" or not target.param_names():
+            continue
+        if not closes_all_param(ctx, target, target.param_names()[0]):
+            continue
+        av = ctx.vals.element_of(ctx.vals.expr(unit, call.args[0], n))
+        if not any(a[0] in ("iter", "user") and mentions(frozenset([a]), src) for a in av):
+            continue
+        fake = type("S", (), {})()
+        # completeness of the container handed to the helper (same rule as for an inline loop)
+        proxy = Node(-1, "siter", None, n.regions, n.tag, n.stmt)
+        proxy.info["iter"] = call.args[0]
+        why = _container_complete(ctx, unit, cfg, proxy, src)
+        if why is None:
+            return True
+        findings.append((n, why))
+    return False
 
 
 def _expr_mentions(ctx, unit: Unit, e: Optional[ast.AST], n: Node, src: str) -> bool:
@@ -338,6 +389,34 @@ def _plain_param(ctx, atom) -> bool:
     return False
 
 
+def _pre_acquisition(ctx, unit: Unit, cfg: CFG, n: Node, pname: str, risk_all) -> str:
+    """Parameter validation that precedes acquisition is outside the fault model "a source,
+    a callable or the consumer raises" (shape rule, see PRE_ACQUISITION for the instances):
+      * an explicit ``raise`` that no user-code-running node can precede on any path,
+      * a truth test of the iterable parameter itself (falsy = empty and synchronous)."""
+    if n.kind == "raise":
+        before = reachable_back_normal(n)
+        if not any(m in risk_all and m is not n for m in before):
+            return "argument validation before the source is touched"
+    if n.kind == "op" and n.info.get("op") == "truth" and isinstance(n.ast, ast.Name) and n.ast.id == pname:
+        return "truth test of the argument: a falsy iterable is empty and synchronous, nothing is owed"
+    return ""
+
+
+def reachable_back_normal(n: Node) -> Set[Node]:
+    seen: Set[Node] = set()
+    work = [n]
+    while work:
+        x = work.pop()
+        if x in seen:
+            continue
+        seen.add(x)
+        for lab, p in x.pred:
+            if lab not in ("e", "p"):
+                work.append(p)
+    return seen
+
+
 # --------------------------------------------------------------------------- the rule
 def check_param(ctx, rule: str, unit: Unit, pname: str, src: str,
                 kinds: Optional[Tuple[str, ...]] = None) -> None:
@@ -365,11 +444,9 @@ def check_param(ctx, rule: str, unit: Unit, pname: str, src: str,
     risky = [n for n in cfg.nodes if n in pending and n in risk_all and is_risky(ctx, unit, n, kinds)]
     bad = 0
     for n in risky:
-        key = (unit.short, " ".join(norm(n.ast if n.ast is not None else n.stmt).split("\n")[0].split())
-               if n.kind != "op" else norm(n.ast))
-        if (unit.short, norm(n.ast) if n.ast is not None else "") in PRE_ACQUISITION or key in PRE_ACQUISITION:
-            ctx.ok(rule, unit, f"pre-acquisition validation `{key[1]}` is outside the fault model",
-                   param=pname)
+        why_exempt = _pre_acquisition(ctx, unit, cfg, n, pname, risk_all)
+        if why_exempt:
+            ctx.ok(rule, unit, f"pre-acquisition `{_construct(n)[:60]}`: {why_exempt}", param=pname)
             continue
         start = n.exc_succ()
         if start is None:
